@@ -220,8 +220,13 @@ func (r *Run) Finish(cov Coverage) {
 		fmt.Fprintf(os.Stderr, "CHECK-BROKEN: evidence marshal: %v\n", err)
 		os.Exit(2)
 	}
-	os.MkdirAll(filepath.Join(Root, "evidence"), 0o755)
-	if err := os.WriteFile(filepath.Join(Root, "evidence", r.ID+".json"), append(b, '\n'), 0o644); err != nil {
+	evDir := filepath.Join(Root, "evidence")
+	if os.Getenv("VERIF_MUTANT") != "" {
+		// a selftest run against a deliberately broken overlay must not replace the evidence of the real tree
+		evDir = filepath.Join(Root, ".build", "mutant-evidence")
+	}
+	os.MkdirAll(evDir, 0o755)
+	if err := os.WriteFile(filepath.Join(evDir, r.ID+".json"), append(b, '\n'), 0o644); err != nil {
 		fmt.Fprintf(os.Stderr, "CHECK-BROKEN: evidence write: %v\n", err)
 		os.Exit(2)
 	}
